@@ -714,6 +714,17 @@ let cmd_engine (ps : int) (script : string) : unit =
     | ["S"; path] ->
         read_line !n ("scan " ^ path) expected (fun rb ->
           rmap (fun r -> "items:" ^ fmt_cur r) (EngineScan.ovl_scan (!st).Engine.d_disk rb (path_of path)))
+    | ["B"; path] | ["V"; path] ->
+        (* buckets() / kv_pairs(): the cursor's entries filtered by kind *)
+        let want_bk = (S.get (S.trim line) 0 = 'B') in
+        read_line !n ((if want_bk then "buckets " else "kvpairs ") ^ path) expected (fun rb ->
+          rmap (fun r -> match r with
+                  | Cursor.CPanic -> "items: PANIC"
+                  | Cursor.CVal l -> "items:" ^ fmt_items (L.filter (fun i -> match i with Spec.IBk _ -> want_bk | Spec.IKv _ -> not want_bk) l))
+               (EngineScan.ovl_scan (!st).Engine.d_disk rb (path_of path)))
+    | ["N"; path] ->
+        read_line !n ("nextint " ^ path) expected (fun rb ->
+          rmap (fun b -> "num:" ^ string_of_n (Engine.b_next b)) (EngineScan.ovl_bucket (!st).Engine.d_disk rb (path_of path)))
     | ["K"; path; k] ->
         read_line !n ("seek " ^ path ^ " " ^ k) expected (fun rb ->
           rmap (fun (ex, r) -> "seek:" ^ (if ex then "1" else "0") ^ ":" ^ fmt_cur r) (EngineScan.ovl_seek (!st).Engine.d_disk rb (path_of path) (tok k)))
